@@ -255,6 +255,8 @@ fn compile(bin: &str) -> Result<(bool, BTreeMap<usize, Vec<String>>, String), St
 }
 
 pub struct Outcome {
+	/// (macro, literal value, spelling) of each violating program, parallel to `violations`
+	pub viol_lits: Vec<(String, String, String)>,
 	pub programs: u64,
 	pub nontrivial: BTreeSet<u64>,
 	pub samples: Vec<serde_json::Value>,
@@ -318,11 +320,12 @@ fn one_batch(mac: Mac, lits: &[Lit], out: &mut Outcome) -> Result<(), String> {
 			out.samples.push(serde_json::json!({"macro": mac.name(), "literal_source": render(l), "accepted_at_compile_time": !rejected_ct, "accepted_at_run_time": exp_lib}));
 		}
 		if exp_lib != exp_rfc {
-			out.violations.push((format!("{}!({})", mac.name(), render(l)), format!("run-time parser accepts = {exp_lib}, RFC grammar accepts = {exp_rfc} (C01 matter, seen from C17)")));
+			out.viol_lits.push((mac.name().to_string(), l.value.clone(), format!("{:?}", l.spelling))); out.violations.push((format!("{}!({})", mac.name(), render(l)), format!("run-time parser accepts = {exp_lib}, RFC grammar accepts = {exp_rfc} (C01 matter, seen from C17)")));
 			continue;
 		}
 		if rejected_ct == exp_lib {
 			let msgs = msgs_here.clone();
+			out.viol_lits.push((mac.name().to_string(), l.value.clone(), format!("{:?}", l.spelling)));
 			out.violations.push((
 				format!("{}!({})", mac.name(), render(l)),
 				if rejected_ct {
@@ -336,7 +339,7 @@ fn one_batch(mac: Mac, lits: &[Lit], out: &mut Outcome) -> Result<(), String> {
 		if rejected_ct {
 			let msgs = msgs_here.clone();
 			if !msgs.iter().any(|m| m.contains("invalid")) {
-				out.violations.push((format!("{}!({})", mac.name(), render(l)), format!("rejected, but not by the macro's own compile_error!: {:?}", msgs)));
+				out.viol_lits.push((mac.name().to_string(), l.value.clone(), format!("{:?}", l.spelling))); out.violations.push((format!("{}!({})", mac.name(), render(l)), format!("rejected, but not by the macro's own compile_error!: {:?}", msgs)));
 			}
 		} else {
 			accepted.push(i);
@@ -376,7 +379,7 @@ fn one_batch(mac: Mac, lits: &[Lit], out: &mut Outcome) -> Result<(), String> {
 		seen.insert(idx);
 		if tag == "BAD" {
 			let l = &lits[idx];
-			out.violations.push((format!("{}!({})", mac.name(), render(l)), format!("the 'static value is distinguishable from the run-time parse: {}", it.next().unwrap_or(""))));
+			out.viol_lits.push((mac.name().to_string(), l.value.clone(), format!("{:?}", l.spelling))); out.violations.push((format!("{}!({})", mac.name(), render(l)), format!("the 'static value is distinguishable from the run-time parse: {}", it.next().unwrap_or(""))));
 		}
 	}
 	if !run.status.success() {
@@ -434,10 +437,30 @@ pub fn run(tier: Tier, seed: u64) -> i32 {
 	}
 	let per_macro = tier.pick(250usize, 400);
 	let batches = tier.pick(1u64, 12);
-	let mut out = Outcome { programs: 0, nontrivial: BTreeSet::new(), samples: vec![], classes: BTreeMap::new(), violations: vec![] };
+	let mut out = Outcome { viol_lits: vec![], programs: 0, nontrivial: BTreeSet::new(), samples: vec![], classes: BTreeMap::new(), violations: vec![] };
+	// committed regression literals (regressions/C17-*.json) ride along with the first batch of their macro
+	let mut reg: Vec<(Mac, Lit)> = vec![];
+	if let Ok(rd) = std::fs::read_dir(verif_root().join("regressions")) {
+		let mut files: Vec<PathBuf> = rd.flatten().map(|e| e.path()).filter(|p| p.file_name().and_then(|n| n.to_str()).map(|n| n.starts_with("C17-") && n.ends_with(".json")).unwrap_or(false)).collect();
+		files.sort();
+		for f in files {
+			if let Ok(v) = serde_json::from_str::<serde_json::Value>(&std::fs::read_to_string(&f).unwrap_or_default()) {
+				let mac = match v["macro"].as_str() { Some("uri") => Mac::Uri, Some("uri_ref") => Mac::UriRef, Some("iri") => Mac::Iri, Some("iri_ref") => Mac::IriRef, _ => continue };
+				let spelling = match v["spelling"].as_str() { Some("Raw") => Spelling::Raw, Some("AllEscapes") => Spelling::AllEscapes, Some("EscapeDefault") => Spelling::EscapeDefault, Some("Continuation") => Spelling::Continuation, _ => Spelling::Debug };
+				reg.push((mac, Lit { value: v["value"].as_str().unwrap_or("").to_string(), spelling }));
+			}
+		}
+	}
 	'outer: for b in 0..batches {
 		for mac in MACS {
-			let lits = generate(mac, per_macro, seed, b);
+			let mut lits = generate(mac, per_macro, seed, b);
+			if b == 0 {
+				for (m, l) in &reg {
+					if *m == mac && !lits.iter().any(|x| x.value == l.value && x.spelling == l.spelling) {
+						lits.insert(0, l.clone());
+					}
+				}
+			}
 			if let Err(e) = one_batch(mac, &lits, &mut out) {
 				println!("INCONCLUSIVE property=C17 {e}");
 				return 2;
@@ -480,12 +503,67 @@ pub fn run(tier: Tier, seed: u64) -> i32 {
 		let _ = std::fs::create_dir_all(&dir);
 		for (k, (prog, why)) in out.violations.iter().enumerate().take(5) {
 			let p = dir.join(format!("C17-{seed}-{k}.json"));
-			let _ = std::fs::write(&p, serde_json::to_string_pretty(&serde_json::json!({"property": "C17", "program": prog, "failure": why})).unwrap());
+			let lit = out.viol_lits.get(k).cloned().unwrap_or_default();
+			let _ = std::fs::write(&p, serde_json::to_string_pretty(&serde_json::json!({"property": "C17", "program": prog, "failure": why, "macro": lit.0, "value": lit.1, "spelling": lit.2})).unwrap());
 			println!("failure: {prog} :: {why}");
 			println!("VIOLATION property=C17 replay={}", p.display());
 		}
 		return 1;
 	}
 	println!("OK property=C17");
+	0
+}
+
+
+/// Replays one saved C17 program (macro, literal value, spelling).
+pub fn replay(path: &Path) -> i32 {
+	let text = match std::fs::read_to_string(path) {
+		Ok(t) => t,
+		Err(e) => {
+			eprintln!("cannot read {}: {e}", path.display());
+			return 2;
+		}
+	};
+	let v: serde_json::Value = match serde_json::from_str(&text) {
+		Ok(v) => v,
+		Err(e) => {
+			eprintln!("cannot parse {}: {e}", path.display());
+			return 2;
+		}
+	};
+	let mac = match v["macro"].as_str() {
+		Some("uri") => Mac::Uri,
+		Some("uri_ref") => Mac::UriRef,
+		Some("iri") => Mac::Iri,
+		Some("iri_ref") => Mac::IriRef,
+		_ => {
+			eprintln!("replay file has no macro/value (batch-level failure?)");
+			return 2;
+		}
+	};
+	let value = v["value"].as_str().unwrap_or("").to_string();
+	let spelling = match v["spelling"].as_str() {
+		Some("Raw") => Spelling::Raw,
+		Some("AllEscapes") => Spelling::AllEscapes,
+		Some("EscapeDefault") => Spelling::EscapeDefault,
+		Some("Continuation") => Spelling::Continuation,
+		_ => Spelling::Debug,
+	};
+	if write_crate().is_err() {
+		return 2;
+	}
+	let mut out = Outcome { viol_lits: vec![], programs: 0, nontrivial: BTreeSet::new(), samples: vec![], classes: BTreeMap::new(), violations: vec![] };
+	let lit = Lit { value, spelling };
+	println!("replay C17 program: {}!({})", mac.name(), render(&lit));
+	if let Err(e) = one_batch(mac, &[lit], &mut out) {
+		println!("INCONCLUSIVE property=C17 {e}");
+		return 2;
+	}
+	if let Some((prog, why)) = out.violations.first() {
+		println!("FAIL {prog} :: {why}");
+		println!("VIOLATION property=C17 replay={}", path.display());
+		return 1;
+	}
+	println!("PASS");
 	0
 }
